@@ -538,6 +538,310 @@ theorem cache_names_distinct (fuel : Nat) (ops : List Op) (j : Inst) :
   | nil => intro st h; exact h
   | cons op ops ih => intro st h; rw [run_cons]; exact ih _ (step_nodup fuel st op h)
 
+
+/-! ## 10. Failed evaluations and the "currently executing" marks (`HookFunction.__call__`)
+
+`State.active` holds the pairs (registration, instance) that are executing at the moment.  A registration whose function
+takes the `cycle` parameter (`Body.cread`, `Body.ctry`) yields `None` at once when it finds its own mark.  A mark that
+stayed behind after a FAILED evaluation would therefore silently replace the value of that implementation by the next
+one's (or by AttributeError) in every later computation on that instance.  The theorems: no evaluation - whatever its
+outcome - leaves a mark behind; hence no reachable state carries one; hence every fresh computation runs every
+implementation un-cycled, exactly as on a twin object that never failed. -/
+
+/-- **Source tie, consumed part II** (`PyrollModel/Gen/C02Extra.lean`, regenerated by `driver/translate/c02_extra.py`): the
+model's treatment of the executing mark, the store order, the store chosen by `add_function`, what `remove_function`
+removes and the `root_hooks` list API are the model's functions INSTANTIATED with the generated tables. -/
+theorem hooks_source_extra_consumed :
+    (∀ cyc failed, discards cyc failed = !cyc) ∧
+    tierOrder = [0, 1, 2] ∧
+    (∀ st c n t, tierRegs st c n t =
+      (st.mro c).flatMap fun k => (st.regs.filter fun r => r.cls == k && r.hook == n && r.tier == t).reverse) ∧
+    (∀ first last, tierOfFlags first last = if first then 0 else if last then 2 else 1) ∧
+    (∀ r key, removes r key = (r.key == key)) ∧
+    (∀ (x : Cls × Name) l, rootAdd x l = l ++ [x]) ∧
+    (∀ (x : Cls × Name) l, rootRemove x l = removeLastOcc x l) ∧
+    Gen.C02.Extra.insertBeforeShift = 0 ∧ Gen.C02.Extra.insertAfterShift = 1 :=
+  ⟨discards_gen, tierOrder_gen, tierRegs_gen, tierOfFlags_gen, removes_gen, fun _ _ => rfl, fun _ _ => rfl, rfl, rfl⟩
+
+/-- the model really follows the tables: with the discard outside the `finally` clause a failed call keeps its mark -/
+example : (if "unless cycle" == "unless cycle" then !false else false) && (!true || false) = false := by decide
+
+/-- **Source tie, pinned part II**: the statements of `HookFunction.__call__ / _determine_extra_args / __enter__ / __exit__`,
+`Hook.add_function / __call__ / remove_function` are the ones the model was written against; the remaining facts of
+`Gen/C02Extra.lean`; the canonical statements of `HookHost.__copy__` (a new object whose `__dict__` receives the ENTRIES
+of the original - the entry `__cache__`, i.e. the same remembered-value dictionary, included) and `HookHost.__hooks__`. -/
+theorem hooks_source_extra_as_modelled :
+    Gen.C02.Extra.hookFunction_call = HookSource.hookFunction_call ∧
+    Gen.C02.Extra.hookFunction_determineExtraArgs = HookSource.hookFunction_determineExtraArgs ∧
+    Gen.C02.Extra.hookFunction_enter = HookSource.hookFunction_enter ∧
+    Gen.C02.Extra.hookFunction_exit = HookSource.hookFunction_exit ∧
+    Gen.C02.Extra.hook_addFunction = HookSource.hook_addFunction ∧
+    Gen.C02.Extra.hook_call = HookSource.hook_call ∧
+    Gen.C02.Extra.hook_removeFunction = HookSource.hook_removeFunction ∧
+    Gen.C02.Extra.hookHost_copy =
+      ["def(self)", "v0 := self.__class__", "v1 := v0.__new__(v0)", "v1.__dict__.update(self.__dict__)", "return v1"] ∧
+    Gen.C02.Extra.hookHost_hooks =
+      ["def(cls) @classmethod @property", "v0 := set()", "for v1 in cls.__mro__:",
+       "  v0 := v0.union([v2 for (v2, v3) in v1.__dict__.items() if not v2.startswith('_') if isinstance(v3, Hook)])",
+       "return v0"] ∧
+    Gen.C02.Extra.callKey = "id(instance)" ∧ Gen.C02.Extra.callCycleBeforeMark = true ∧
+    Gen.C02.Extra.callMarkBeforeTry = true ∧ Gen.C02.Extra.callDiscardClause = "finally" ∧
+    Gen.C02.Extra.extraArgCycle = true ∧ Gen.C02.Extra.removeIgnoresAbsent = true ∧
+    Gen.C02.Extra.addCreatesRegistration = true ∧ Gen.C02.Extra.addUnwraps = true ∧
+    Gen.C02.Extra.exitRemoves = "self.hook.remove_function(self)" ∧ Gen.C02.Extra.enterDoes = "pass" ∧
+    Gen.C02.Extra.setWrites = "__dict__" ∧ Gen.C02.Extra.deleteFrom = "__dict__" ∧ Gen.C02.Extra.deleteTolerant = true ∧
+    Gen.C02.Extra.rootLoopOver = "root_hooks" ∧ Gen.C02.Extra.rootGuard = "issubclass(type(self), entry.owner)" ∧
+    Gen.C02.Extra.rootHookOf = "type(self)" ∧ Gen.C02.Extra.rootCompute = "get_result" ∧
+    Gen.C02.Extra.rootFallbackWhen = "is None" ∧ Gen.C02.Extra.rootNoneRaises = "AttributeError" ∧
+    Gen.C02.Extra.rootStore = "setattr(self)" ∧ Gen.C02.Extra.rootReturns = "list of the yielded numbers" ∧
+    Gen.C02.Extra.copyMode = "new(cls); __dict__.update(self.__dict__)" ∧
+    Gen.C02.Extra.initCache = "self.__cache__ := dict()" := by
+  refine ⟨?_, ?_, ?_, ?_, ?_, ?_, ?_, ?_, ?_, ?_, ?_, ?_, ?_, ?_, ?_, ?_, ?_, ?_, ?_, ?_, ?_, ?_, ?_, ?_, ?_, ?_, ?_, ?_, ?_,
+    ?_, ?_, ?_⟩ <;> first | rfl | decide
+
+/-- **No operation leaves an executing mark behind** - a read, `has_value`, re-evaluation or root evaluation that FAILED
+(AttributeError, TypeError, exhausted recursion) included: the marks after the operation are the marks before it. -/
+theorem evaluation_restores_marks (fuel : Nat) (st : State) (op : Op) : (step fuel st op).1.active = st.active :=
+  step_active fuel st op
+
+/-- ... hence **no reachable state carries a mark** (any history from the empty world, failed reads included), and every
+registration finds `cycle = False` when a computation on any instance starts. -/
+theorem no_marks_between_operations (fuel : Nat) (ops : List Op) :
+    (run fuel init ops).active = [] ∧ ∀ k i, (run fuel init ops).marked k i = false := by
+  have h : (run fuel init ops).active = [] := by rw [run_active]; rfl
+  exact ⟨h, fun k i => by simp [State.marked, h]⟩
+
+/-- **A failed read changes nothing but what its dependencies legitimately remembered**: no explicit value of any
+instance changes, no remembered value is lost or altered, the registry and the executing marks are as before; and the read
+itself stores nothing - the state is exactly the one the chain of implementations left. -/
+theorem failed_read_leaves_no_trace (fuel : Nat) (st s1 : State) (i : Inst) (n : Name) (r : Res) (hd : Unset st i n)
+    (hc : NotRemembered st i n) (hr : ∀ v, r ≠ .val v)
+    (h : step (fuel + 2) st (.read i n) = (s1, .res r)) :
+    s1 = (ev fuel st.fresh (.chain i (order st (st.obj i).cls n))).1 ∧
+    s1.active = st.active ∧ s1.regs = st.regs ∧ (∀ j, (s1.obj j).dict = (st.obj j).dict) ∧
+    (∀ j m v, lookup m (st.obj j).cache = some (some v) → lookup m (s1.obj j).cache = some (some v)) := by
+  have hs : s1 = (step (fuel + 2) st (.read i n)).1 := by rw [h]
+  have hp := ev_pres (fuel + 2) st.fresh (.get i n)
+  refine ⟨?_, ?_, ?_, ?_, ?_⟩
+  · have key : ev (fuel + 1) st.fresh (.unset i n) =
+        finishGet i n (ev fuel st.fresh (.chain i (order st (st.obj i).cls n))) := unset_eq fuel st.fresh i n hc
+    rw [read_explicit_none_as_unset (fuel + 1) st i n hd, key] at h
+    generalize ev fuel st.fresh (.chain i (order st (st.obj i).cls n)) = x at h ⊢
+    obtain ⟨s, q⟩ := x
+    cases q with
+    | val v =>
+      simp only [finishGet, Prod.mk.injEq, Out.res.injEq] at h
+      exact absurd h.2.symm (hr v)
+    | none => simp only [finishGet, noneOutcome_gen, Prod.mk.injEq] at h; exact h.1.symm
+    | attrErr => simp only [finishGet, Prod.mk.injEq] at h; exact h.1.symm
+    | typeErr => simp only [finishGet, Prod.mk.injEq] at h; exact h.1.symm
+    | fuelOut => simp only [finishGet, Prod.mk.injEq] at h; exact h.1.symm
+  · rw [hs]; exact step_active _ _ _
+  · rw [hs]; exact hp.regs
+  · intro j; rw [hs]; exact hp.dict j
+  · intro j m v hv; rw [hs]; exact hp.cacheMono j m v hv
+
+/-- **After a failed read everything goes on exactly as on a twin that never failed**: from a state without marks (every
+reachable state), let a read fail (or succeed), then apply ANY history (supplying the missing input, registering
+implementations, reads, re-evaluations ...): every later operation behaves as from the twin state whose marks are wiped,
+and the state reached carries no mark either. -/
+theorem read_after_failure_as_on_twin (fuel g : Nat) (st : State) (i : Inst) (n : Name) (ops : List Op) (op : Op)
+    (hq : st.active = []) :
+    (run fuel (step fuel st (.read i n)).1 ops).active = [] ∧
+    step g (run fuel (step fuel st (.read i n)).1 ops) op =
+      step g (run fuel { (step fuel st (.read i n)).1 with active := [] } ops) op := by
+  have h1 : (step fuel st (.read i n)).1.active = [] := by rw [step_active]; exact hq
+  have h2 : ({ (step fuel st (.read i n)).1 with active := [] } : State) = (step fuel st (.read i n)).1 := by
+    generalize (step fuel st (.read i n)).1 = s at h1
+    cases s; simp_all
+  exact ⟨by rw [run_active]; exact h1, by rw [h2]⟩
+
+/-- What a mark does, and why it must not stay: a `cycle`-aware implementation that finds NO mark of its own is evaluated
+as the plain implementation (`cycle = False`) ... -/
+theorem cycle_aware_runs_when_unmarked (f : Nat) (st : State) (i : Inst) (r : Reg) (rs : List Reg) (m : Name) (k c : Int)
+    (hb : r.body = .cread m k c) (hm : st.marked r.key i = false) :
+    ev (f + 1) st (.chain i (r :: rs)) = ev (f + 1) st (.chain i ({ r with body := .read m k c } :: rs)) := by
+  simp only [ev, hb, hm, Body.under, Bool.false_eq_true, if_false]
+
+/-- ... and one that finds its mark yields `None` without running: the chain goes on with the NEXT implementation (only the
+invocation is recorded; the mark stays for the outer call that set it). -/
+theorem cycle_aware_skipped_when_marked (f : Nat) (st : State) (i : Inst) (r : Reg) (rs : List Reg) (m : Name) (k c : Int)
+    (hb : r.body = .cread m k c ∨ r.body = .ctry m k c) (hm : st.marked r.key i = true) :
+    ev (f + 2) st (.chain i (r :: rs)) = ev (f + 1) (st.log r.id) (.chain i rs) := by
+  have he : (st.log r.id).enter r.key i = st.log r.id := by
+    unfold State.enter
+    have : (st.log r.id).marked r.key i = true := hm
+    simp [this]
+  rcases hb with hb | hb <;>
+    · rw [ev]
+      simp only [hb, hm, Body.under, if_true, he, ev]
+      rw [leave_gen]; rfl
+
+/-! ## 11. Registrations are a multiset of registration objects
+
+`Reg.id` is the function (what the invocation trace shows), `Reg.key` the registration (`HookFunction`) that
+`add_function` creates on EVERY call - also when the same function, or the `HookFunction` of an earlier registration, is
+handed in (`with Host.hook(model, tryfirst=True):` for a `model` that is also registered permanently). -/
+
+/-- `add_function(f, tryfirst, trylast)` appends ONE registration (new key) in the store the flags select and changes no
+other registration; `tryfirst` wins over `trylast`. -/
+theorem add_appends_one_registration (fuel : Nat) (st : State) (key fn : Id) (c : Cls) (n : Name) (b : Body)
+    (first last : Bool) :
+    (step fuel st (.addReg key fn c n b first last)).1.regs =
+      st.regs ++ [{ id := fn, cls := c, hook := n, body := b, key := key,
+                    tier := if first then 0 else if last then 2 else 1 }] := by
+  simp [step, tierOfFlags_gen]
+
+/-- **`remove_function` removes exactly the registration it is given**: with distinct registration objects (every reachable
+state, `registration_keys_distinct`) the registry afterwards is the registry with that ONE entry erased - every other
+registration, those of the SAME FUNCTION included, stays where it was. -/
+theorem remove_removes_exactly_one (fuel : Nat) (st : State) (r : Reg) (hnd : (st.regs.map (·.key)).Nodup)
+    (hr : r ∈ st.regs) : (step fuel st (.removeImpl r.key)).1.regs = st.regs.erase r := by
+  simp only [step, removes_gen]
+  exact filter_key_erase st.regs r hnd hr
+
+/-- ... so a second registration of the same function keeps providing the value: it is still registered and still listed
+in the resolution order of every class and hook it was listed for - and nothing new is listed. -/
+theorem remove_keeps_other_registrations (fuel : Nat) (st : State) (key : Id) (r2 : Reg) (c : Cls) (n : Name) :
+    (r2 ∈ order (step fuel st (.removeImpl key)).1 c n ↔ r2 ∈ order st c n ∧ r2.key ≠ key) := by
+  simp only [mem_order_iff]
+  simp only [step, removes_gen, List.mem_filter, Bool.not_eq_true', beq_eq_false_iff_ne, ne_eq]
+  constructor
+  · rintro ⟨⟨h1, h2⟩, h3, h4, h5⟩; exact ⟨⟨h1, h3, h4, h5⟩, h2⟩
+  · rintro ⟨⟨h1, h3, h4, h5⟩, h2⟩; exact ⟨⟨h1, h2⟩, h3, h4, h5⟩
+
+/-- the number of registrations of a function drops by exactly one when one of them is removed -/
+theorem remove_drops_one_of_function (fuel : Nat) (st : State) (r : Reg) (hnd : (st.regs.map (·.key)).Nodup)
+    (hr : r ∈ st.regs) :
+    ((step fuel st (.removeImpl r.key)).1.regs.filter (fun x => x.id == r.id)).length + 1 =
+      (st.regs.filter (fun x => x.id == r.id)).length := by
+  rw [remove_removes_exactly_one fuel st r hnd hr]
+  have h := List.length_erase_of_mem (l := st.regs.filter (fun x => x.id == r.id)) (a := r)
+    (List.mem_filter.2 ⟨hr, by simp⟩)
+  have e : (st.regs.erase r).filter (fun x => x.id == r.id) = (st.regs.filter (fun x => x.id == r.id)).erase r := by
+    rw [List.erase_filter]
+  rw [e, h]
+  have : 0 < (st.regs.filter (fun x => x.id == r.id)).length :=
+    List.length_pos_of_mem (List.mem_filter.2 ⟨hr, by simp⟩)
+  omega
+
+/-- **A `with hook(f, ...):` block registers for exactly its extent**: entering appends a registration under a fresh key,
+leaving removes that registration only; whatever happens inside (reads, failures, re-evaluations - anything but other
+registry edits), the registry afterwards is the registry before, permanent registrations of the same function included. -/
+theorem with_block_restores_registry (fuel : Nat) (st : State) (key fn : Id) (c : Cls) (n : Name) (b : Body)
+    (first last : Bool) (ops : List Op) (hfresh : ∀ r ∈ st.regs, r.key ≠ key)
+    (hops : ∀ op ∈ ops, op.editsRegistry = false) :
+    (step fuel (run fuel (step fuel st (.addReg key fn c n b first last)).1 ops) (.removeImpl key)).1.regs = st.regs := by
+  have h1 := run_regs_stable fuel ops (step fuel st (.addReg key fn c n b first last)).1 hops
+  simp only [step, removes_gen] at h1 ⊢
+  rw [h1, List.filter_append]
+  have : st.regs.filter (fun r => !(r.key == key)) = st.regs := by
+    apply List.filter_eq_self.mpr
+    intro r hr; simp [hfresh r hr]
+  rw [this]; simp
+
+/-- In every state reached by a history whose registrations use fresh keys (python: every `add_function` creates a new
+`HookFunction` object) the registration keys are distinct - the side condition of the removal theorems always holds. -/
+theorem registration_keys_distinct (fuel : Nat) (ops : List Op) (h : freshKeys [] ops = true) :
+    ((run fuel init ops).regs.map (·.key)).Nodup :=
+  run_keys fuel ops init [] (by simp [init]) (by simp [init]) h
+
+/-! ## 12. The `root_hooks` list: editing API and evaluation order -/
+
+/-- `insert_before(position, item)`: the list is split at the FIRST occurrence of `position`, `item` goes directly in
+front of it; every other entry and the relative order of all entries are kept.  ValueError - nothing changes - exactly
+when `position` is not in the list. -/
+theorem root_insert_before_spec (fuel : Nat) (st : State) (p e : Cls × Name) :
+    (p ∈ st.roots → ∃ pre post, st.roots = pre ++ p :: post ∧ p ∉ pre ∧
+      step fuel st (.rootInsertBefore p e) = ({ st.fresh with roots := pre ++ e :: p :: post }, .ok)) ∧
+    (p ∉ st.roots → step fuel st (.rootInsertBefore p e) = (st.fresh, .valueErr)) := by
+  constructor
+  · intro hp
+    cases hk : idxOf p st.roots with
+    | none => exact absurd hp ((idxOf_none p st.roots).1 hk)
+    | some k =>
+      obtain ⟨pre, post, h1, h2, h3⟩ := idxOf_split p st.roots k hk
+      refine ⟨pre, post, h1, h2, ?_⟩
+      simp only [step, insertBeforeShift_gen, insertRel, hk, Option.map_some]
+      have : insertAt e (k + 0) st.roots = pre ++ e :: p :: post := by
+        rw [h1, ← h3, insertAt_append]; rfl
+      rw [this]
+  · intro hp
+    simp only [step, insertRel, (idxOf_none p st.roots).2 hp, Option.map_none]
+
+/-- `insert_after(position, item)`: `item` goes directly behind the FIRST occurrence of `position`. -/
+theorem root_insert_after_spec (fuel : Nat) (st : State) (p e : Cls × Name) :
+    (p ∈ st.roots → ∃ pre post, st.roots = pre ++ p :: post ∧ p ∉ pre ∧
+      step fuel st (.rootInsertAfter p e) = ({ st.fresh with roots := pre ++ p :: e :: post }, .ok)) ∧
+    (p ∉ st.roots → step fuel st (.rootInsertAfter p e) = (st.fresh, .valueErr)) := by
+  constructor
+  · intro hp
+    cases hk : idxOf p st.roots with
+    | none => exact absurd hp ((idxOf_none p st.roots).1 hk)
+    | some k =>
+      obtain ⟨pre, post, h1, h2, h3⟩ := idxOf_split p st.roots k hk
+      refine ⟨pre, post, h1, h2, ?_⟩
+      simp only [step, insertAfterShift_gen, insertRel, hk, Option.map_some]
+      have : insertAt e (k + 1) st.roots = pre ++ p :: e :: post := by
+        rw [h1, ← h3, insertAt_append]; rfl
+      rw [this]
+  · intro hp
+    simp only [step, insertRel, (idxOf_none p st.roots).2 hp, Option.map_none]
+
+/-- `remove_last(item)` deletes the LAST occurrence of `item` and nothing else; ValueError exactly when there is none. -/
+theorem root_remove_last_spec (fuel : Nat) (st : State) (e : Cls × Name) :
+    (e ∈ st.roots → ∃ pre post, st.roots = pre ++ e :: post ∧ e ∉ post ∧
+      step fuel st (.rootRemoveLast e) = ({ st.fresh with roots := pre ++ post }, .ok)) ∧
+    (e ∉ st.roots → step fuel st (.rootRemoveLast e) = (st.fresh, .valueErr)) := by
+  constructor
+  · intro he
+    cases hk : removeLastOcc e st.roots with
+    | none => exact absurd he ((removeLastOcc_none e st.roots).1 hk)
+    | some l =>
+      obtain ⟨pre, post, h1, h2, h3⟩ := removeLastOcc_split e st.roots l hk
+      refine ⟨pre, post, h1, h2, ?_⟩
+      simp only [step, rootRemove_gen, hk, h3]
+  · intro he
+    simp only [step, rootRemove_gen, (removeLastOcc_none e st.roots).2 he]
+
+/-- `add(item)` appends - also an item that is already listed (no duplicate check: it is then evaluated twice). -/
+theorem root_add_appends (fuel : Nat) (st : State) (e : Cls × Name) :
+    step fuel st (.rootAdd e) = ({ st.fresh with roots := st.roots ++ [e] }, .ok) := by
+  simp only [step, rootAdd_gen]
+
+/-- **Root hooks are evaluated in list order**: with `root_hooks = l1 ++ l2` the evaluation is the evaluation of `l1`
+followed - when that went through - by the evaluation of `l2` in the state `l1` left (so the implementations of a later
+root hook see the EXPLICIT values of the earlier ones); an error in `l1` ends it there. -/
+theorem root_evaluation_in_list_order (fuel : Nat) (st : State) (i : Inst) (l1 l2 : List (Cls × Name))
+    (h : st.roots = l1 ++ l2) :
+    step fuel st (.evalRoot i) =
+      match rootLoop fuel i st.fresh l1 [] with
+      | (s, .none, a) => ((rootLoop fuel i s l2 a).1, .vals (rootLoop fuel i s l2 a).2.1 (rootLoop fuel i s l2 a).2.2)
+      | (s, r, a) => (s, .vals r a) := by
+  have e : step fuel st (.evalRoot i) = ((rootLoop fuel i st.fresh st.roots []).1,
+      .vals (rootLoop fuel i st.fresh st.roots []).2.1 (rootLoop fuel i st.fresh st.roots []).2.2) := rfl
+  rw [e, h, rootLoop_append]
+  generalize rootLoop fuel i st.fresh l1 [] = x
+  obtain ⟨s, r, a⟩ := x
+  cases r <;> rfl
+
+/-- **A root hook evaluated becomes explicit and survives re-evaluation, list edits and every further history**: after a
+successful `evaluate_and_set_hooks`, any history without a manual assign / delete of that hook (re-evaluations, cache
+clears, registry changes, `insert_before` / `insert_after` / `remove_last` / `add` on the root list, further root
+evaluations) leaves a PLAIN explicit value under it, and a read returns it without any invocation. -/
+theorem root_explicit_survives (fuel g : Nat) (st fin : State) (i : Inst) (c : Cls) (n : Name) (out : List Val)
+    (ops : List Op) (hi : i < st.n) (hfin : step fuel st (.evalRoot i) = (fin, .vals .none out))
+    (hroot : (c, n) ∈ st.roots) (hc : (st.mro (st.obj i).cls).contains c = true)
+    (hops : ∀ op ∈ ops, op.userSets i n = false) :
+    ∃ v, lookup n ((run fuel fin ops).obj i).dict = some (.plain v) ∧
+      step (g + 1) (run fuel fin ops) (.read i n) = ((run fuel fin ops).fresh, .res (.val v)) := by
+  obtain ⟨w, hw, _⟩ := (root_becomes_explicit fuel st fin i out hfin).1 c n hroot hc
+  have hn : i < fin.n := by
+    have := step_n_mono fuel st (.evalRoot i)
+    rw [hfin] at this; exact Nat.lt_of_lt_of_le hi this
+  obtain ⟨v, hv⟩ := root_survives_history fuel i n ops fin hn hops ⟨w, hw⟩
+  exact ⟨v, hv, read_explicit g _ i n v hv⟩
+
 /-! ## Non-vacuity: concrete histories over two classes and two instances -/
 
 /-- class 0, subclass 1; instance 0 of class 1, instance 1 of class 0; `h0 = 5` on the base, `h1 = h0 * 10` on the
@@ -609,5 +913,81 @@ example : ((run 9 init exRoot).obj 0).dict = [(0, .plain (.int 5)), (1, .plain (
 example : (step 9 (run 9 init (exRoot ++ [.removeImpl 0, .reevaluate 0, .clearCache 0, .handOver 0 0])) (.read 2 1)).2
     = .res (.val (.int 50)) := by decide
 example : ((run 9 init (exRoot ++ [.read 0 0, .handOver 0 0])).obj 2).cache = [] := by decide
+
+
+-- ## sections 10-12
+-- a read that FAILS first: the `cycle`-aware implementation 0 of `h1` reads the still missing `h0` (AttributeError passes
+-- through the chain); a low-priority (`trylast`) constant 7 is registered too.  Then the input is supplied and the value is
+-- computed from implementation 0 (not from the stand-in 7), remembered and served silently; no mark stays in between.
+def exFail : List Op :=
+  [.defClass 0 [0], .newInst 0, .addReg 0 0 0 1 (.cread 0 2 1) false false, .addReg 1 1 0 1 (.const (.int 7)) false true]
+example : (step 9 (run 9 init exFail) (.read 0 1)).2 = .res .attrErr ∧
+    (step 9 (run 9 init exFail) (.read 0 1)).1.active = [] ∧
+    ((step 9 (run 9 init exFail) (.read 0 1)).1.obj 0).cache = [] := by decide
+example : (step 9 (run 9 init (exFail ++ [.read 0 1, .hasValue 0 1, .assign 0 0 (.plain (.int 4))])) (.read 0 1))
+    |> fun r => (r.1.trace, r.2, (r.1.obj 0).cache) = ([0], .res (.val (.int 9)), [(1, some (.int 9))]) := by decide
+example : (step 9 (run 9 init (exFail ++ [.read 0 1, .assign 0 0 (.plain (.int 4)), .read 0 1])) (.read 0 1))
+    |> fun r => (r.1.trace, r.2) = ([], .res (.val (.int 9))) := by decide
+-- hypotheses of `failed_read_leaves_no_trace` are satisfiable
+example : Unset (run 9 init exFail) 0 1 ∧ NotRemembered (run 9 init exFail) 0 1 ∧
+    (step (7 + 2) (run 9 init exFail) (.read 0 1)).2 = .res .attrErr := by
+  refine ⟨Or.inl (by decide), ?_, by decide⟩
+  intro w; have : lookup 1 ((run 9 init exFail).obj 0).cache = none := by decide
+  rw [this]; simp
+-- what a mark that stayed behind WOULD do (`cycle_aware_skipped_when_marked`; the state is not reachable): the value of
+-- implementation 0 is silently replaced by the stand-in 7
+example : (step 9 { run 9 init (exFail ++ [.assign 0 0 (.plain (.int 4))]) with active := [(0, 0)] } (.read 0 1)).2
+    = .res (.val (.int 7)) := by decide
+example : ({ run 9 init exFail with active := [(0, 0)] } : State).marked 0 0 = true ∧
+    (run 9 init exFail).marked 0 0 = false := by decide
+-- re-evaluation after a failed re-evaluation: `h1` remembered, the input deleted (re-evaluation fails), supplied again
+example : (step 9 (run 9 init (exFail ++ [.assign 0 0 (.plain (.int 4)), .read 0 1, .delete 0 0, .reevaluate 0,
+      .assign 0 0 (.plain (.int 5)), .reevaluate 0])) (.read 0 1)).2 = .res (.val (.int 11)) ∧
+    (step 9 (run 9 init (exFail ++ [.assign 0 0 (.plain (.int 4)), .read 0 1, .delete 0 0])) (.reevaluate 0)).2
+      = .res .attrErr := by decide
+
+-- one function (id 1, "model") registered permanently AND a second time with `tryfirst` (`with Host.h0(model, tryfirst=True):`,
+-- registration key 2), besides `base` (0) and `override` (3): leaving the block (`removeImpl 2`) removes that registration
+-- only; after removing `override` too the permanent registration of `model` provides the value
+def exTwice : List Op :=
+  [.defClass 0 [0], .newInst 0, .addReg 0 0 0 0 (.const (.int 1)) false false,
+   .addReg 1 1 0 0 (.const (.int 21)) false false, .addReg 3 3 0 0 (.const (.int 42)) false false,
+   .addReg 2 1 0 0 (.const (.int 21)) true false]
+example : freshKeys [] exTwice = true ∧ ((run 9 init exTwice).regs.map (·.key)) = [0, 1, 3, 2] ∧
+    ((run 9 init exTwice).regs.map (·.id)) = [0, 1, 3, 1] := by decide
+example : (step 9 (run 9 init exTwice) (.read 0 0)) |> fun r => (r.1.trace, r.2) = ([1], .res (.val (.int 21))) := by decide
+example : (step 9 (run 9 init (exTwice ++ [.read 0 0, .removeImpl 2, .reevaluate 0])) (.read 0 0)).2
+    = .res (.val (.int 42)) := by decide
+example : (step 9 (run 9 init (exTwice ++ [.read 0 0, .removeImpl 2, .removeImpl 3])) (.reevaluate 0))
+    |> fun r => (r.1.trace, (r.1.obj 0).cache) = ([1], [(0, some (.int 21))]) := by decide
+example : ((run 9 init (exTwice ++ [.removeImpl 2])).regs.map (·.key)) = [0, 1, 3] ∧
+    (∀ r ∈ (run 9 init exTwice).regs.take 3, r.key ≠ 2) := by decide
+
+-- the root list API (first occurrence of the position, last occurrence removed, duplicates appended, ValueError)
+example : (run 9 init [.setRoots [(0, 0), (0, 1), (0, 0)], .rootInsertBefore (0, 0) (0, 2), .rootInsertAfter (0, 0) (0, 3),
+      .rootAdd (0, 1), .rootRemoveLast (0, 0)]).roots = [(0, 2), (0, 0), (0, 3), (0, 1), (0, 1)] := by decide
+example : (step 9 init (.rootInsertBefore (0, 1) (0, 2))).2 = .valueErr ∧
+    (step 9 init (.rootRemoveLast (0, 1))).2 = .valueErr ∧
+    (step 9 (run 9 init [.setRoots [(0, 1)]]) (.rootInsertAfter (0, 1) (0, 2))).2 = .ok := by decide
+-- evaluation in list order: `h0` inserted BEFORE `h1` is made explicit first, so the implementation of `h1` (reading `h0`)
+-- sees the explicit value (trace `[0, 1]`, no second invocation of 0); listed after it, `h0` is computed twice
+example : (step 9 (run 9 init (exBase ++ [.setRoots [(1, 1)], .rootInsertBefore (1, 1) (0, 0)])) (.evalRoot 0))
+    |> fun r => (r.1.trace, r.2, (r.1.obj 0).dict) =
+      ([0, 1], .vals .none [.int 5, .int 50], [(0, .plain (.int 5)), (1, .plain (.int 50))]) := by decide
+example : (step 9 (run 9 init (exBase ++ [.setRoots [(1, 1)], .rootInsertAfter (1, 1) (0, 0)])) (.evalRoot 0))
+    |> fun r => (r.1.trace, r.2) = ([1, 0, 0], .vals .none [.int 50, .int 5]) := by decide
+-- `root_explicit_survives`: hypotheses satisfiable; the root value survives re-evaluation and edits of the root list
+example : (step 9 (run 9 init (exRoot ++ [.removeImpl 1, .reevaluate 0, .rootRemoveLast (1, 1), .rootAdd (0, 2)]))
+    (.read 0 1)) |> fun r => (r.1.trace, r.2) = ([], .res (.val (.int 50))) := by decide
+example : (∀ op ∈ [Op.removeImpl 1, .reevaluate 0, .rootRemoveLast (1, 1), .rootAdd (0, 2)], op.userSets 0 1 = false) ∧
+    (∀ op ∈ [Op.read 0 1, .reevaluate 0, .hasValue 0 0], op.editsRegistry = false) := by decide
+
+-- remaining hypotheses of sections 10-12 are satisfiable
+example : (run 9 init exFail).active = [] ∧
+    ((run 9 init exFail).regs.head?).map (·.body) = some (.cread 0 2 1) := by decide
+example : ((run 9 init exTwice).regs.map (·.key)).Nodup ∧
+    (∃ r ∈ (run 9 init exTwice).regs, r.key = 2 ∧ r.id = 1 ∧ r.tier = 0) := by decide
+example : ((1, 1) ∈ (run 9 init (exBase ++ [.setRoots [(0, 0), (1, 1)]])).roots) ∧
+    ((run 9 init exBase).mro ((run 9 init exBase).obj 0).cls).contains 1 = true ∧ 0 < (run 9 init exBase).n := by decide
 
 end Life
